@@ -53,6 +53,8 @@ def main():
         demo_local = os.path.join(d, "demo_seeded.py")
         src = open(demo).read().replace(wt, d)
         open(demo_local, "w").write(src)
+        if "import demo" in src:  # demos that re-import themselves in a fresh subprocess
+            open(os.path.join(d, "demo.py"), "w").write(src)
         rc0, out0 = sh([PY, demo_local], cwd=d, env=env)
         ran.append("clean tree: demo exit %d" % rc0)
         ok, msg = RM.apply({"patch": patch}, d)
